@@ -222,17 +222,19 @@ def judge_c02(spec, gs, tbs, inputs, diags, dumps, maps, tdiffs, byk, jobs, info
         if not parseable(gi, gs, tbs, diags, tdiffs, need_match=False): C['grammars_skipped'] += 1; continue
         tb = tbs[gi]
         for idx, data in enumerate(inputs[gi]):
-            r = byk.get((gi, idx, 0))
+          ex = None
+          for mode in (0, 3, 4):       # string_buffer, exact-size string_view_buffer, user buffer: the lexemes and values must not depend on the buffer kind
+            r = byk.get((gi, idx, mode))
             if r is None: continue
-            ex = model.expect(g, tb, data)
+            if ex is None: ex = model.expect(g, tb, data)
             if ex.res.hang: continue
             C['evaluations'] += 1
             if r.res == -1 and ex.ok:
                 # not a plain rejection: the evaluation of an accepted input was abandoned by an exception out of the value plumbing
-                viol(out, g, data, 0, 'accepted input: evaluation abandoned by %s after the calls %s' % (r.extra[:120], model.mask_positions(r.events)[-200:])); continue
+                viol(out, g, data, mode, 'accepted input: evaluation abandoned by %s after the calls %s' % (r.extra[:120], model.mask_positions(r.events)[-200:])); continue
             if r.res == 1 and not ex.ok:
                 # a value was returned for an input that has no derivation tree at all
-                viol(out, g, data, 0, 'a result was returned although the input has no derivation (calls %s)' % model.mask_positions(r.events)[-200:]); continue
+                viol(out, g, data, mode, 'a result was returned although the input has no derivation (calls %s)' % model.mask_positions(r.events)[-200:]); continue
             if (r.res == 1) != ex.ok: C['acceptance_disagreements_left_to_C01'] += 1; continue
             got = model.mask_positions(_COPYEV.sub('', r.events)); want = model.mask_positions(ex.events)
             C['functor_calls_observed'] += got.count(';')
@@ -240,9 +242,9 @@ def judge_c02(spec, gs, tbs, inputs, diags, dumps, maps, tdiffs, byk, jobs, info
                 C['accepted'] += 1
                 if len(ex.res.reductions) >= 3: out['distinct'].append(common.sha(g.key(), data)[:12])
             if got != want:
-                viol(out, g, data, 0, 'functor call log differs from bottom-up evaluation of the derivation tree: observed %s expected %s' % (got[:300], want[:300]), observed=got, expected=want)
+                viol(out, g, data, mode, 'functor call log differs from bottom-up evaluation of the derivation tree: observed %s expected %s' % (got[:300], want[:300]), observed=got, expected=want)
             elif ex.ok and r.root != ex.root:
-                viol(out, g, data, 0, 'returned root value id %s, expected %s (last reduction of the root)' % (r.root, ex.root))
+                viol(out, g, data, mode, 'returned root value id %s, expected %s (last reduction of the root)' % (r.root, ex.root))
         if len(out['samples']) < 2 and inputs[gi]:
             d = next((d for d in inputs[gi] if model.expect(g, tb, d).ok and len(d) > 3), inputs[gi][0])
             out['samples'].append({'grammar': g.text(), 'vtypes': g.vtypes, 'input': d.decode('latin-1'), 'expected_log': model.expect(g, tb, d).events[:400]})
